@@ -503,6 +503,17 @@ func gen(a Args, out *Out) {
 	}
 	out.Note("Go-side sweep: all 65536 machine ids x %d trajectories, plus every machine id >= 2^14 paired with the id 2^14 below it", per)
 	if a.Thorough() {
+		// every machine id once through the model as well (a short trajectory with a rollback)
+		for m := int64(0); m < 65536; m++ {
+			t0 := g.base()
+			clk := [][2]int64{{t0, int64(r.Range(1, 3))}, {t0 + int64(r.Range(1, 9)), 2}, {t0 - int64(r.Range(0, 5)), 1}}
+			if clk[2][0] < 0 {
+				clk[2][0] = 0
+			}
+			g.emit("all-machines", []script{{m, t0, clk}})
+		}
+	}
+	if a.Thorough() {
 		// stall / edge styles over a stride of machine ids
 		for j := 0; j < 4; j++ {
 			t0, clk := g.trajectory(3 + j%2)
